@@ -4,7 +4,9 @@
    quantified), batch size and every dimension are unbounded. *)
 From Coq Require Import List Arith Bool String.
 Import ListNotations.
-From AgileV Require Import C16.Model C16.Proofs.
+From Coq Require Import QArith.
+From AgileV Require Import C16.Model C16.Proofs C16.Check C16.CheckProofs.
+Open Scope nat_scope.
 
 (* Re-evaluating ANY well-shaped action tensor (e.g. a stored rollout action) after ANY forward pass gives,
    row by row, the textbook log-probability of that action under the distribution of that forward pass:
@@ -116,6 +118,60 @@ Theorem learn_squeeze_refuted :
 Proof. exact learn_squeeze_refuted_lemma. Qed.
 Print Assumptions learn_squeeze_refuted.
 
+(* "summed over independent components, never over the batch": row b of the log-probability tensor the code
+   returns for a (stored) action has one entry per row of the batch, and that entry reads only row b of the
+   logits, of the mask and of the action (and the row-free parameters log_std / low / high) *)
+Theorem stored_rows_independent : forall ed lg mask dr ed' a lp ent act B b,
+  ed_ok ed -> space_ok (ed_space ed) -> wf_rows B (flatdim (ed_space ed)) lg -> mask_ok (ed_space ed) B mask ->
+  wf_action (ed_space ed) B act -> 0 < ncomp (ed_space ed) ->
+  ed_forward ed lg mask dr = Some (ed', a, lp, ent) ->
+  (ed_squash ed = false \/ forall d1, ed_dist ed' = Some d1 -> cache_hit d1 act = false) ->
+  local2 lg -> (forall mk, mask = Some mk -> local2 mk) -> local2 (rows_of act) ->
+  (forall b', Forall (fun e => only_row b' e = true) (ed_log_std ed)) ->
+  b < B ->
+  match ed_log_prob ed' act with T1 v => List.length v = B /\ only_row b (nth b v dflt) = true | _ => False end.
+Proof. exact stored_rows_independent_lemma. Qed.
+Print Assumptions stored_rows_independent.
+
+(* the rewrite used by [logprob_is_spec_fresh] does not change values: for EVERY interpretation of the primitives
+   (any carrier, any functions) in which atanh (clamp (tanh x)) = x *)
+Theorem simp_sound : forall (T : Type) (P : prims T) (rho : string -> nat -> nat -> T),
+  (forall x, p_atanh T P (p_clamp T P (p_tanh T P x)) = x) ->
+  forall e, denote T P rho (simp e) = denote T P rho e.
+Proof. exact simp_sound_e. Qed.
+Print Assumptions simp_sound.
+
+(* hence the VALUE of the log-probability forward() reports for the action it returns is the value of the
+   definition at that action, in every such interpretation and for every assignment of the variables *)
+Theorem fresh_logprob_value : forall (T : Type) (P : prims T) (rho : string -> nat -> nat -> T) ed lg mask dr ed' a lp ent B,
+  (forall x, p_atanh T P (p_clamp T P (p_tanh T P x)) = x) ->
+  ed_ok ed -> space_ok (ed_space ed) -> wf_rows B (flatdim (ed_space ed)) lg -> mask_ok (ed_space ed) B mask ->
+  wf_draws (ed_space ed) B dr ->
+  ed_forward ed lg mask dr = Some (ed', a, lp, ent) ->
+  tdenote T P rho lp = tdenote T P rho (spec_logprob (ed_space ed) (ed_squash ed) (eff_logits lg mask) (ed_log_std ed) a).
+Proof. exact fresh_logprob_value_lemma. Qed.
+Print Assumptions fresh_logprob_value.
+
+(* support with squashing: StochasticActor.forward returns, component by component, Scale low_i high_i (tanh u_i) of the
+   draw u — a point of [low_i, high_i] — while the reported log-probability is the one of forward() above; no
+   analytic entropy is reported *)
+Theorem squashed_action_is_scaled_tanh : forall d lg um ac' a lp ent B,
+  wf_rows B d lg ->
+  actor_forward (actor_init (Box d) true) lg None (DrOne (T2 um)) = Some (ac', a, lp, ent) ->
+  a = T2 (map (fun urow => zip3With Scale (map (fun i => Var "low" 0 i) (seq 0 d)) (map (fun i => Var "high" 0 i) (seq 0 d))
+                                     (map Tanh urow)) um)
+  /\ ent = None.
+Proof. exact squashed_action_lemma. Qed.
+Print Assumptions squashed_action_is_scaled_tanh.
+
+(* correspondence check: the number Coq compares with the implementation's tensor entry is the value of the WHOLE
+   formula, where Add/Sub/Neg/SumL/MeanL are exact rational arithmetic and every primitive atom a has the supplied
+   value phi a (the float64 value computed by the trusted evaluator) *)
+Theorem ev_sound : forall (phi : expr -> Q) e rest,
+  exists q, ev e (map phi (atoms e) ++ rest) = Some (q, rest) /\ (q == denoteQ phi e)%Q.
+Proof. exact ev_sound_lemma. Qed.
+Print Assumptions ev_sound.
+
 (* ---- non-vacuity: concrete states satisfy the hypotheses ---- *)
 Open Scope string_scope.
 (* a stored action (plain variables) misses the cache after two forwards of a squashed Box policy, and the theorem applies *)
@@ -130,6 +186,15 @@ Example stored_nonvacuous :
   | None => False
   end.
 Proof. vm_compute. split; [intros d1 H; injection H as <-; reflexivity|reflexivity]. Qed.
+
+(* the variable tensors of the K scenarios are row-local, so [stored_rows_independent] applies to them *)
+Example locality_nonvacuous :
+  local2 (var_t2 "logit" 3 5) /\ local2 (var_t2 "mask" 3 5) /\ local2 (rows_of (var_action "action" (MultiDiscrete [2;3]) 3)) /\
+  (forall b', Forall (fun e => only_row b' e = true) (ed_log_std (ed_init (Box 2) true))).
+Proof.
+  repeat split; try apply var_t2_local.
+  intro b'. repeat constructor.
+Qed.
 
 Example masked_multidiscrete_nonvacuous :
   let ed := ed_init (MultiDiscrete [2;3]) false in
